@@ -92,6 +92,12 @@ def main():
                 for e in dep_err: broken['theorems'].append(f"dependency {e['file']}:{e['line']}: {e['msg']}")
                 if not b['errors']: broken['theorems'].append('lake build failed: ' + b['log'][-600:])
                 bad = {n for (n, _, _) in thms}
+            if not drv_err:
+                # lake may have stopped before (re)building the driver: never run the model on stale object files
+                b2 = vlib.lake_build([drv_mod])
+                if not b2['ok']:
+                    driver_ok = False
+                    broken['correspondence'].append('model driver could not be rebuilt (a module it imports no longer compiles)')
             if drv_err:
                 driver_ok = False
                 for e in drv_err: broken['correspondence'].append(f"model driver does not build: {e['file']}:{e['line']}: {e['msg']}")
